@@ -3,7 +3,7 @@ pid=sys.argv[1]
 names=[d for d in sorted(os.listdir('/verif/seeded')) if d.startswith(pid+'-') or d.startswith('own-'+pid)]
 # describe previous ideas by their directory slug (no /verif content beyond that)
 avoid='; '.join(n.split('-',2)[-1].replace('-',' ') if n.count('-')>=2 else n for n in names)
-p=subprocess.run(['python3','/tmp/agent_prompt.py',pid],capture_output=True,text=True).stdout
+p=subprocess.run(['python3','/verif/tools/agent_prompt_base.py',pid],capture_output=True,text=True).stdout
 p=p.replace('WHAT TO PRODUCE —', f'''EIGHTH ROUND: several defects for this property have already been written by others; do NOT repeat these ideas (short slugs): {avoid}. Look for a *different* defect in a different function or file than those slugs suggest — read the code the property touches widely (all crates: pest, meta, generator, derive, vm, grammars, debugger) and pick a place nobody would look at first (earlier rounds showed that checks tend to miss: a second public entry point that does the same job as the obvious one, a path that is only taken with a non-default switch or feature combination, values one step outside the usual small alphabets such as long tokens, many lines, unusual code points, exactly-equal bounds, and defects that are present in two back-ends at once): a rarely used public API entry point, a non-default cargo feature, an iterator adaptor, Display/Debug/serialisation paths the property mentions, boundary values (empty input, empty rule set, maximal indices, the last element, exactly-equal limits), multi-byte or unusual input, three or more cooperating rules, or a deep operation history. It must still satisfy all requirements below.
 
 WHAT TO PRODUCE —''')
